@@ -49,6 +49,7 @@ class World:
     requests: List[str]                           # names top-level commands may request
     absent: List[str] = field(default_factory=list)   # sources that start absent
     notes: str = ""
+    prefixes: List[list] = field(default_factory=list)  # histories leading to non-initial states the BFS also starts from
 
     def to_json(self):
         return {"name": self.name, "sources": self.sources, "rules": {k: [repr(s) for s in v] for k, v in self.rules.items()},
@@ -179,12 +180,14 @@ def curated() -> Dict[str, World]:
     W["csum-mid"] = World(
         "csum-mid", {"s": V3},
         {"top.do": [S(deps=["c"])], "c.do": [S(kind="csum", deps=["s"], proj=True, out="file")]},
-        ["top", "c"], ["top", "c"])
+        ["top", "c"], ["top", "c"],
+        prefixes=[[["ifchange", ["top"]], ["edit", "s", "2"], ["ifchange", ["top"]]]])
     W["csum-deep"] = World(
         "csum-deep", {"s": V3, "u": ["0", "1"]},
         {"top.do": [S(deps=["mid", "u"])], "mid.do": [S(deps=["c"], out="file")],
          "c.do": [S(kind="csum", deps=["s"], proj=True)]},
-        ["top", "mid", "c"], ["top", "mid", "c"])
+        ["top", "mid", "c"], ["top", "mid", "c"],
+        prefixes=[[["ifchange", ["top"]], ["edit", "s", "2"], ["ifchange", ["top"]]]])
     W["csum-two"] = World(
         "csum-two", {"s": V3},
         {"top.do": [S(deps=["c1"])], "c1.do": [S(kind="csum", deps=["c2"], out="file")],
@@ -223,16 +226,30 @@ def curated() -> Dict[str, World]:
         "dynamic", {"sel": ["A", "B"], "sa": ["0", "1"], "sb": ["0", "1"]},
         {"top.do": [S(sel=("sel", (("A", ("a",)), ("B", ("b",)))))],
          "a.do": [S(deps=["sa"])], "b.do": [S(deps=["sb"], out="file")]},
-        ["top", "a", "b"], ["top"])
+        ["top", "a", "b"], ["top"],
+        prefixes=[[["ifchange", ["top"]], ["edit", "sel", "B"], ["ifchange", ["top"]]]])
     W["default"] = World(
         "default", {"p.src": ["0", "1"], "q.src": ["0", "1"]},
         {"default.x.do": [S(deps=["%.src"])], "top.do": [S(deps=["p.x", "q.x"])],
          "p.x.do": [S(deps=["%.src"], tag="specific", out="file")]},
         ["top", "p.x", "q.x"], ["top", "p.x"], notes="p.x.do starts absent; see dofiles_absent")
+    W["fan3"] = World(   # three dependents of one generated node (the third parent sees it "already checked")
+        "fan3", {"s": ["0", "1"]},
+        {"top.do": [S(deps=["a", "b", "c"])], "a.do": [S(deps=["leaf"])], "b.do": [S(deps=["leaf"], out="file")],
+         "c.do": [S(deps=["leaf"])], "leaf.do": [S(deps=["s"])]},
+        ["top", "a", "b", "c", "leaf"], ["top", "c"])
+    W["csum-toggle"] = World(   # a target that starts / stops / resumes recording a checksum
+        "csum-toggle", {"s": ["0", "2"]},
+        {"top.do": [S(deps=["mid"])],
+         "mid.do": [S(kind="csum", deps=["s"], out="file"), S(deps=["s"], out="file", tag="nostamp")]},
+        ["top", "mid"], ["top"],
+        prefixes=[[["ifchange", ["top"]], ["dovar", "mid.do", 1], ["edit", "s", "2"], ["ifchange", ["top"]], ["dovar", "mid.do", 0]],
+                  [["dovar", "mid.do", 1], ["ifchange", ["top"]], ["dovar", "mid.do", 0], ["edit", "s", "2"], ["ifchange", ["top"]]]])
     W["dovar"] = World(
         "dovar", {"s": ["0", "1"], "u": ["0", "1"]},
         {"top.do": [S(deps=["m"])], "m.do": [S(deps=["s"]), S(deps=["u"], tag="v1"), S(deps=["s", "u"], tag="v2", out="file")]},
-        ["top", "m"], ["top", "m"])
+        ["top", "m"], ["top", "m"],
+        prefixes=[[["ifchange", ["top"]], ["dovar", "m.do", 1], ["ifchange", ["top"]]]])
     W["fail"] = World(
         "fail", {"s": ["0", "1"], "flag": ["0", "1"]},
         {"top.do": [S(deps=["m", "h"])], "m.do": [S(deps=["s"], fail="flag")], "h.do": [S(deps=["s"], out="file")]},
